@@ -1,6 +1,6 @@
 (* ApiF.v — correspondence entry points for C13.  Definitions only. *)
 From Coq Require Import ZArith List Bool.
-From Mpir Require Import Word DivDefs MpfDefs ApiBasic MpfAddDefs.
+From Mpir Require Import Word DivDefs MpfDefs ApiBasic MpfAddDefs MpfSubDefs.
 Import ListNotations.
 Local Open Scope Z_scope.
 
@@ -57,4 +57,11 @@ Definition api_mpf_add_exact : api := fun t =>
   let prec := argz t 0 in
   let mk (m e : Z) := mkf_norm (m <? 0) (Z.abs m) e in
   let r := mpf_add prec (mk (argz t 1) (argz t 2)) (mk (argz t 3) (argz t 4)) in
+  [TZ (if fneg r then - fn r else fn r); TZ (fexp r); TZ (fM r)].
+
+(* bit-exact model of mpf_sub (any signs): prec (limbs) um ue vm ve -> size exp mantissa *)
+Definition api_mpf_sub_exact : api := fun t =>
+  let prec := argz t 0 in
+  let mk (m e : Z) := mkf_norm (m <? 0) (Z.abs m) e in
+  let r := mpf_sub_full prec (mk (argz t 1) (argz t 2)) (mk (argz t 3) (argz t 4)) in
   [TZ (if fneg r then - fn r else fn r); TZ (fexp r); TZ (fM r)].
